@@ -143,7 +143,7 @@ pub fn create_raw_dict_from_source<R: io::Read, W: io::Write>(
     let mut buffered_source = BufReader::with_capacity(128_000, source);
 
     let params = DictParams {
-        segment_size: u32::min(2048, source_size as u32),
+        segment_size: usize::min(2048, source_size) as u32,
     };
     let num_segments = source_size / params.segment_size as usize;
     // According to 4. Experiments - Varying Reservoir Sampler Thresholds,
